@@ -1,6 +1,462 @@
 import OnetVerif.Model.C11
-/-! Property C11 — property theorems, negation witnesses, `_partial` variants and non-vacuity
-examples only (helper lemmas that need Mathlib go to OnetVerif/Proofs/). -/
+/-! Property C11 — finished instances stay finished; trees outlive them as long as needed.
+All statements hold for arbitrary schedules (`List Act`). -/
 namespace C11
+
+def setTok (tok : Nat) (t : Th) : Bool := t.pc == .set && t.tok == tok
+
+structure Inv (s : St) : Prop where
+  sub : ∀ t ∈ s.settled, t ∈ s.live
+  safe : s.settled ≠ [] → s.present = true ∧ s.armed = false
+  once : ∀ tok, s.thr.countP (setTok tok) + s.constructed.count tok ≤ 1
+  born : ∀ tok, 0 < s.thr.countP (setTok tok) + s.constructed.count tok → tok ∈ s.live ∨ tok ∈ s.doneToks
+  setLive : ∀ tok, 0 < s.thr.countP (setTok tok) → tok ∈ s.live
+  setNew : ∀ tok ∈ s.settled, s.thr.countP (setTok tok) = 0
+  disj : ∀ tok ∈ s.doneToks, tok ∉ s.live
+  rel : s.used = true → s.present = true → s.live = [] →
+        s.thr.countP (at_ .found) = 0 → s.thr.countP (at_ .set) = 0 → s.armed = true
+
+theorem inv_init : Inv {} := by constructor <;> simp
+
+theorem countP_set' {p : Th → Bool} {l : List Th} {i : Nat} {t t' : Th} (h : l[i]? = some t) :
+    (l.set i t').countP p + (if p t then 1 else 0) = l.countP p + (if p t' then 1 else 0) := by
+  have hi : i < l.length := by
+    rcases Nat.lt_or_ge i l.length with h' | h'
+    · exact h'
+    · simp [List.getElem?_eq_none h'] at h
+  have ht : l[i] = t := by simpa [List.getElem?_eq_getElem hi] using h
+  have := List.boole_getElem_le_countP (p := p) hi
+  rw [List.countP_set hi, ht] at *
+  omega
+
+/-- count bookkeeping after moving thread `i` from pc `a` to pc `b` -/
+theorem mv {l : List Th} {i tok0 m0 : Nat} {a : Pc} (h : l[i]? = some ⟨tok0, m0, a⟩) (b : Pc) :
+    (∀ p, (l.set i ⟨tok0, m0, b⟩).countP (at_ p) + (if a = p then 1 else 0)
+        = l.countP (at_ p) + (if b = p then 1 else 0)) ∧
+    (∀ tok, (l.set i ⟨tok0, m0, b⟩).countP (setTok tok) + (if a = .set ∧ tok0 = tok then 1 else 0)
+        = l.countP (setTok tok) + (if b = .set ∧ tok0 = tok then 1 else 0)) := by
+  refine ⟨fun p => ?_, fun tok => ?_⟩
+  · have := countP_set' (p := at_ p) (t' := ⟨tok0, m0, b⟩) h
+    simpa [at_] using this
+  · have := countP_set' (p := setTok tok) (t' := ⟨tok0, m0, b⟩) h
+    simpa [setTok] using this
+
+theorem inv_thread (s s' : St) (i : Nat) (t : Th) (hI : Inv s) (ht : s.thr[i]? = some t)
+    (hs : stepTh s i t = some s') : Inv s' := by
+  obtain ⟨hsub, hsafe, honce, hborn, hsl, hsn, hdj, hrel⟩ := hI
+  obtain ⟨tok0, m0, pc0⟩ := t
+  cases pc0 with
+  | fin => simp [stepTh] at hs
+  | lookup =>
+    simp only [stepTh] at hs
+    simp at hs; subst hs
+    cases hp : s.present
+    · obtain ⟨cP, cT⟩ := mv ht .fin
+      have cF := cP .found; have cS := cP .set
+      try simp at cF cS cT
+      simp only [hp, ↓reduceIte, Bool.false_eq_true]
+      refine ⟨hsub, ?_, ?_, ?_, ?_, ?_, hdj, ?_⟩
+      all_goals (try dsimp only)
+      · intro h; have := hsafe h; simp [hp] at this
+      · intro tok; rw [cT tok]; exact honce tok
+      · intro tok h; rw [cT tok] at h; exact hborn tok h
+      · intro tok h; rw [cT tok] at h; exact hsl tok h
+      · intro tok h; rw [cT tok]; exact hsn tok h
+      · intro _ hp'; simp at hp'
+    · obtain ⟨cP, cT⟩ := mv ht .found
+      have cF := cP .found; have cS := cP .set
+      try simp at cF cS cT
+      simp only [hp, ↓reduceIte, Bool.false_eq_true]
+      refine ⟨hsub, ?_, ?_, ?_, ?_, ?_, hdj, ?_⟩
+      all_goals (try dsimp only)
+      · intro h; have := hsafe h; simp [this]
+      · intro tok; rw [cT tok]; exact honce tok
+      · intro tok h; rw [cT tok] at h; exact hborn tok h
+      · intro tok h; rw [cT tok] at h; exact hsl tok h
+      · intro tok h; rw [cT tok]; exact hsn tok h
+      · intro _ _ _ hf _; omega
+  | found =>
+    simp only [stepTh] at hs
+    split at hs
+    · simp at hs
+    · rename_i hmux
+      have hmux0 : s.thr.countP (at_ .set) = 0 := by omega
+      split at hs
+      · -- late message for a finished instance
+        rename_i hdone
+        simp at hs; subst hs
+        obtain ⟨cP, cT⟩ := mv ht .fin
+        simp at cT
+        refine ⟨hsub, ?_, ?_, ?_, ?_, ?_, hdj, ?_⟩
+        all_goals (try dsimp only)
+        · intro h
+          have := hsafe h
+          have hl : s.live ≠ [] := by
+            intro e
+            cases hse : s.settled with
+            | nil => exact h hse
+            | cons a l => have := hsub a (by simp [hse]); simp [e] at this
+          simp [this, hl]
+        · intro tok; rw [cT tok]; exact honce tok
+        · intro tok h; rw [cT tok] at h; exact hborn tok h
+        · intro tok h; rw [cT tok] at h; exact hsl tok h
+        · intro tok h; rw [cT tok]; exact hsn tok h
+        · intro _ _ hl _ _; simp [hl]
+      · split at hs
+        · -- the instance exists: hand over
+          rename_i hlive
+          simp at hs; subst hs
+          obtain ⟨cP, cT⟩ := mv ht .fin
+          simp at cT
+          refine ⟨hsub, hsafe, ?_, ?_, ?_, ?_, hdj, ?_⟩
+          all_goals (try dsimp only)
+          · intro tok; rw [cT tok]; exact honce tok
+          · intro tok h; rw [cT tok] at h; exact hborn tok h
+          · intro tok h; rw [cT tok] at h; exact hsl tok h
+          · intro tok h; rw [cT tok]; exact hsn tok h
+          · intro _ _ hl; simp [hl] at hlive
+        · -- create the instance
+          rename_i hnd hnl
+          simp at hs; subst hs
+          have cT : ∀ tok, (s.thr.set i ⟨tok0, m0, .set⟩).countP (setTok tok)
+              = s.thr.countP (setTok tok) + (if tok0 = tok then 1 else 0) := by
+            intro tok; have := (mv ht .set).2 tok; simpa using this
+          have hzero : s.thr.countP (setTok tok0) + s.constructed.count tok0 = 0 := by
+            apply Classical.byContradiction; intro hne
+            rcases hborn tok0 (by omega) with h | h
+            · exact hnl h
+            · exact hnd h
+          refine ⟨?_, hsafe, ?_, ?_, ?_, ?_, ?_, ?_⟩
+          all_goals (try dsimp only)
+          · intro x hx; simp; left; exact hsub x hx
+          · intro tok; rw [cT tok]
+            by_cases e : tok0 = tok
+            · subst e; rw [if_pos rfl]; omega
+            · rw [if_neg e]; have := honce tok; omega
+          · intro tok h; rw [cT tok] at h
+            by_cases e : tok0 = tok
+            · subst e; simp
+            · rw [if_neg e] at h
+              rcases hborn tok (by omega) with h' | h'
+              · simp [h']
+              · simp [h']
+          · intro tok h; rw [cT tok] at h
+            by_cases e : tok0 = tok
+            · subst e; simp
+            · rw [if_neg e] at h
+              have := hsl tok (by omega)
+              simp [this]
+          · intro tok h; rw [cT tok]
+            by_cases e : tok0 = tok
+            · subst e; exact absurd (hsub _ h) hnl
+            · rw [if_neg e]; have := hsn tok h; omega
+          · intro tok h
+            simp
+            refine ⟨hdj tok h, ?_⟩
+            intro e; subst e; exact hnd h
+          · intro _ _ hl; simp at hl
+  | set =>
+    simp only [stepTh] at hs
+    simp at hs; subst hs
+    have cT : ∀ tok, (s.thr.set i ⟨tok0, m0, .fin⟩).countP (setTok tok) + (if tok0 = tok then 1 else 0)
+        = s.thr.countP (setTok tok) := by
+      intro tok; have := (mv ht .fin).2 tok; simpa using this
+    have hc : ∀ tok, (s.constructed ++ [tok0]).count tok
+        = s.constructed.count tok + (if tok0 = tok then 1 else 0) := by
+      intro tok
+      by_cases e : tok0 = tok
+      · subst e; simp [List.count_append]
+      · have e' : ¬ tok = tok0 := fun h => e h.symm
+        simp [List.count_append, List.count_singleton, e, e']
+    have hpos : 0 < s.thr.countP (setTok tok0) := by
+      have := cT tok0; rw [if_pos rfl] at this; omega
+    have hlive : tok0 ∈ s.live := hsl tok0 hpos
+    have hone : s.thr.countP (setTok tok0) = 1 ∧ s.constructed.count tok0 = 0 := by
+      have := honce tok0; omega
+    refine ⟨?_, ?_, ?_, ?_, ?_, ?_, hdj, ?_⟩
+    all_goals (try dsimp only)
+    · intro x hx; simp [hlive] at hx
+      rcases hx with hx | hx
+      · exact hsub x hx
+      · subst hx; exact hlive
+    · intro _; simp
+    · intro tok; rw [hc tok]; have := cT tok; have := honce tok
+      by_cases e : tok0 = tok
+      · subst e; rw [if_pos rfl] at *; omega
+      · rw [if_neg e] at *; omega
+    · intro tok h; rw [hc tok] at h; have := cT tok
+      by_cases e : tok0 = tok
+      · subst e; left; exact hlive
+      · rw [if_neg e] at *; exact hborn tok (by omega)
+    · intro tok h; have := cT tok
+      by_cases e : tok0 = tok
+      · subst e; exact hlive
+      · rw [if_neg e] at this; exact hsl tok (by omega)
+    · intro tok h
+      simp [hlive] at h
+      have := cT tok
+      rcases h with h | h
+      · have := hsn tok h
+        by_cases e : tok0 = tok
+        · subst e; rw [if_pos rfl] at *; omega
+        · rw [if_neg e] at *; omega
+      · subst h; rw [if_pos rfl] at this; omega
+    · intro _ _ hl; simp [hl] at hlive
+
+theorem inv_step (s s' : St) (a : Act) (hI : Inv s) (hs : step s a = some s') : Inv s' := by
+  cases a with
+  | thread i =>
+    simp only [step] at hs
+    split at hs
+    · rename_i t ht; exact inv_thread s s' i t hI ht hs
+    · simp at hs
+  | arrive tok m =>
+    simp [step] at hs; subst hs
+    obtain ⟨hsub, hsafe, honce, hborn, hsl, hsn, hdj, hrel⟩ := hI
+    refine ⟨hsub, hsafe, ?_, ?_, ?_, ?_, hdj, ?_⟩
+    all_goals (try dsimp only)
+    · intro t; have := honce t; simpa [List.countP_append, setTok] using this
+    · intro t h; apply hborn t; simpa [List.countP_append, setTok] using h
+    · intro t h; apply hsl t; simpa [List.countP_append, setTok] using h
+    · intro t h; have := hsn t h; simpa [List.countP_append, setTok] using this
+    · intro hu hp hl hf hse
+      apply hrel hu hp hl
+      · simpa [List.countP_append, at_] using hf
+      · simpa [List.countP_append, at_] using hse
+  | done tok =>
+    obtain ⟨hsub, hsafe, honce, hborn, hsl, hsn, hdj, hrel⟩ := hI
+    simp only [step] at hs
+    split at hs
+    · rename_i hset
+      simp at hs; subst hs
+      have hz := hsn tok hset
+      refine ⟨?_, ?_, honce, ?_, ?_, ?_, ?_, ?_⟩
+      all_goals (try dsimp only)
+      · intro x hx
+        simp at hx
+        simp [hsub x hx.1, hx.2]
+      · intro h
+        have hne : s.settled ≠ [] := by intro e; simp [e] at h
+        have hs := hsafe hne
+        obtain ⟨x, hx⟩ := List.exists_mem_of_ne_nil _ h
+        simp at hx
+        simp [hs]
+        exact ⟨x, hsub x hx.1, hx.2⟩
+      · intro t h
+        rcases hborn t h with h' | h'
+        · by_cases e : t = tok
+          · right; simp [e]
+          · left; simp [h', e]
+        · right; simp [h']
+      · intro t h
+        have := hsl t h
+        by_cases e : t = tok
+        · subst e; omega
+        · simp [this, e]
+      · intro t h; simp at h; exact hsn t h.1
+      · intro t h
+        simp at h
+        rcases h with h | h
+        · intro hc; simp at hc; exact hdj t h hc.1
+        · subst h; simp
+      · intro _ _ hl _ _; simp at hl; simp; left; exact hl
+    · simp at hs
+  | expire =>
+    obtain ⟨hsub, hsafe, honce, hborn, hsl, hsn, hdj, hrel⟩ := hI
+    simp only [step] at hs
+    split at hs
+    · rename_i ha
+      simp at hs; subst hs
+      refine ⟨hsub, ?_, honce, hborn, hsl, hsn, hdj, ?_⟩
+      all_goals (try dsimp only)
+      · intro h; have := hsafe h; simp [ha] at this
+      · intro _ hp; simp at hp
+    · simp at hs
+  | localStart tok =>
+    obtain ⟨hsub, hsafe, honce, hborn, hsl, hsn, hdj, hrel⟩ := hI
+    simp only [step] at hs
+    split at hs
+    · simp at hs
+    · rename_i hfresh
+      simp at hfresh
+      simp at hs; subst hs
+      have hzero : s.thr.countP (setTok tok) + s.constructed.count tok = 0 := by
+        apply Classical.byContradiction; intro hne
+        rcases hborn tok (by omega) with h | h
+        · exact hfresh.1 h
+        · exact hfresh.2.1 h
+      have cT : ∀ t, (s.thr ++ [(⟨tok, 0, .set⟩ : Th)]).countP (setTok t)
+          = s.thr.countP (setTok t) + (if tok = t then 1 else 0) := by
+        intro t
+        by_cases e : tok = t
+        · subst e; simp [List.countP_append, setTok]
+        · simp [List.countP_append, setTok, e]
+      refine ⟨?_, hsafe, ?_, ?_, ?_, ?_, ?_, ?_⟩
+      all_goals (try dsimp only)
+      · intro x hx; simp; left; exact hsub x hx
+      · intro t; rw [cT t]
+        by_cases e : tok = t
+        · subst e; rw [if_pos rfl]; omega
+        · rw [if_neg e]; have := honce t; omega
+      · intro t h; rw [cT t] at h
+        by_cases e : tok = t
+        · subst e; simp
+        · rw [if_neg e] at h
+          rcases hborn t (by omega) with h' | h'
+          · simp [h']
+          · simp [h']
+      · intro t h; rw [cT t] at h
+        by_cases e : tok = t
+        · subst e; simp
+        · rw [if_neg e] at h
+          have := hsl t (by omega)
+          simp [this]
+      · intro t h; rw [cT t]
+        by_cases e : tok = t
+        · subst e; exact absurd (hsub _ h) hfresh.1
+        · rw [if_neg e]; have := hsn t h; omega
+      · intro t h
+        simp
+        refine ⟨hdj t h, ?_⟩
+        intro e; subst e; exact hfresh.2.1 h
+      · intro _ _ hl; simp at hl
+
+theorem inv_run (as : List Act) (s : St) (h : Inv s) : Inv (run s as) := by
+  induction as generalizing s with
+  | nil => exact h
+  | cons a as ih =>
+    simp only [run]
+    split
+    · exact ih _ (inv_step _ _ _ h ‹_›)
+    · exact ih _ h
+
+/-- **finished stays finished, and is no longer listed**: a done marker is never removed, and a
+token that is marked done is never among the listed instances again. -/
+theorem c11_done_monotone (s s' : St) (a : Act) (tok : Nat) (hs : step s a = some s')
+    (hd : tok ∈ s.doneToks) : tok ∈ s'.doneToks := by
+  cases a with
+  | arrive t m => simp [step] at hs; subst hs; exact hd
+  | thread i =>
+    simp only [step] at hs
+    split at hs
+    · rename_i t _
+      obtain ⟨t0, m0, pc0⟩ := t
+      cases pc0 <;> simp only [stepTh] at hs
+      · simp at hs; subst hs; exact hd
+      · split at hs
+        · simp at hs
+        · split at hs
+          · simp at hs; subst hs; exact hd
+          · split at hs <;> (simp at hs; subst hs; exact hd)
+      · simp at hs; subst hs; exact hd
+      · simp at hs
+    · simp at hs
+  | done t =>
+    simp only [step] at hs
+    split at hs
+    · simp at hs; subst hs; simp [hd]
+    · simp at hs
+  | expire =>
+    simp only [step] at hs
+    split at hs
+    · simp at hs; subst hs; exact hd
+    · simp at hs
+  | localStart t =>
+    simp only [step] at hs
+    split at hs
+    · simp at hs
+    · simp at hs; subst hs; exact hd
+
+theorem c11_done_not_listed (as : List Act) (tok : Nat) (hd : tok ∈ (run {} as).doneToks) :
+    tok ∉ (run {} as).live :=
+  (inv_run as {} inv_init).disj tok hd
+
+/-- **late messages are dropped without creating anything**: the `transmitMux` region for a
+message whose token is done changes neither the listed instances, nor the constructor log, nor
+what was handed over, nor the tree. -/
+theorem c11_late_dropped (s s' : St) (i : Nat) (t : Th) (ht : s.thr[i]? = some t)
+    (hpc : t.pc = .found) (hd : t.tok ∈ s.doneToks) (hs : step s (.thread i) = some s') :
+    s'.live = s.live ∧ s'.constructed = s.constructed ∧ s'.handed = s.handed ∧
+    s'.doneToks = s.doneToks ∧ s'.present = s.present := by
+  simp only [step, ht] at hs
+  obtain ⟨t0, m0, pc0⟩ := t
+  simp at hpc; subst hpc
+  simp only [stepTh] at hs
+  split at hs
+  · simp at hs
+  · simp at hd
+    simp [hd] at hs; subst hs; simp
+
+/-- **no resurrection**: under every schedule the protocol constructor runs at most once per
+token — in particular never again after the instance finished. -/
+theorem c11_constructed_once (as : List Act) (tok : Nat) : (run {} as).constructed.count tok ≤ 1 := by
+  have := (inv_run as {} inv_init).once tok; omega
+
+/-- **the tree stays while it is used**: in every reachable state, if some instance whose
+creation has completed is still listed, the tree is in the storage (so the instance's `Tree()`
+works and a peer's request is answered) and no removal is scheduled. -/
+theorem c11_tree_while_used (as : List Act) (h : (run {} as).settled ≠ []) :
+    (run {} as).present = true ∧ (run {} as).armed = false :=
+  (inv_run as {} inv_init).safe h
+
+/-- **grace**: only the timer removes the tree — every other step keeps a present tree. -/
+theorem c11_grace (s s' : St) (a : Act) (hs : step s a = some s') (hp : s.present = true)
+    (ha : ∀ (e : a = .expire), False) : s'.present = true := by
+  cases a with
+  | arrive t m => simp [step] at hs; subst hs; exact hp
+  | thread i =>
+    simp only [step] at hs
+    split at hs
+    · rename_i t _
+      obtain ⟨t0, m0, pc0⟩ := t
+      cases pc0 <;> simp only [stepTh] at hs
+      · simp at hs; subst hs; exact hp
+      · split at hs
+        · simp at hs
+        · split at hs
+          · simp at hs; subst hs; exact hp
+          · split at hs <;> (simp at hs; subst hs; exact hp)
+      · simp at hs; subst hs; rfl
+      · simp at hs
+    · simp at hs
+  | done t =>
+    simp only [step] at hs
+    split at hs
+    · simp at hs; subst hs; exact hp
+    · simp at hs
+  | expire => exact (ha rfl).elim
+  | localStart t =>
+    simp only [step] at hs
+    split at hs
+    · simp at hs
+    · simp at hs; subst hs; exact hp
+
+/-- **released afterwards**: once no instance is listed any more and no arrival is inside the
+`transmitMux` region, a tree that was used by an instance is scheduled for removal; the timer
+then removes it. -/
+theorem c11_released (as : List Act)
+    (hu : (run {} as).used = true) (hp : (run {} as).present = true) (hl : (run {} as).live = [])
+    (hq : ∀ t ∈ (run {} as).thr, t.pc = .lookup ∨ t.pc = .fin) :
+    (run {} as).armed = true ∧
+    ∃ s', step (run {} as) .expire = some s' ∧ s'.present = false := by
+  have hI := inv_run as {} inv_init
+  generalize run {} as = s at *
+  have h1 : s.thr.countP (at_ .found) = 0 := by
+    rw [List.countP_eq_zero]; intro t ht; rcases hq t ht with h | h <;> simp [at_, h]
+  have h2 : s.thr.countP (at_ .set) = 0 := by
+    rw [List.countP_eq_zero]; intro t ht; rcases hq t ht with h | h <;> simp [at_, h]
+  have ha := hI.rel hu hp hl h1 h2
+  exact ⟨ha, { s with present := false, armed := false }, by simp [step, ha], rfl⟩
+
+/-! ### non-vacuity -/
+/-- a run: message creates instance 1, a second run 2 shares the tree, 1 finishes (tree stays: 2
+uses it), a late message for 1 is dropped, 2 finishes (removal armed), timer fires (released) -/
+private def demo : List Act :=
+  [.localStart 9, .thread 0, .arrive 1 11, .thread 1, .thread 1, .thread 1,
+   .arrive 2 12, .thread 2, .thread 2, .thread 2, .done 9, .done 1,
+   .arrive 1 13, .thread 3, .thread 3, .done 2, .expire]
+example : (run {} demo).doneToks = [9, 1, 2] ∧ (run {} demo).constructed = [9, 1, 2] ∧
+    (run {} demo).handed = [(1, 11), (2, 12)] ∧ (run {} demo).present = false ∧
+    (run {} (demo.take 16)).present = true ∧ (run {} (demo.take 16)).armed = true := by decide
 
 end C11
